@@ -29,6 +29,28 @@ theorem routeOnH_clean (net : Net W) (order : List Nat) (hends : ∀ e ∈ net.e
     | none => rfl
     | some p => obtain ⟨x, hx⟩ := hinv.c3 v p hq; rw [hd] at hx; cases hx
 
+/-- a search with a target on an object whose own `routing_mode` is 1, in any state a program can reach (`SessOK`): the
+flags earlier searches left are reset, so the call answers with the pure A* search (`runForwardH`, heuristic
+`astar_wgt × distance to the target`) on the object's graph as it is at that moment; a caller's dictionary receives that
+search's entries -/
+theorem execObj_astar_eq (sqrt : W → W) (o : NetObj W) (hok : SessOK o.sess) (hm : o.mode = 1) (s t : Nat)
+    (hs : s ∈ o.sess.order) (ht : t ∈ o.sess.order) (cut : Option W) (ud : Bool) :
+    (execObj sqrt o (.call (.dist s t cut ud))).2 = .val (shortestDistanceH o.sess.net (o.h sqrt (some t)) s t cut) ∧
+    (execObj sqrt o (.call (.dist s t cut ud))).1.sess.udict =
+      (if ud then record o.sess.udict s (runForwardH o.sess.net (o.h sqrt (some t)) s (some t) cut).2 else o.sess.udict) ∧
+    (execObj sqrt o (.call (.route s (some t) cut ud))).2 =
+      .flags (o.sess.order.map (runForwardH o.sess.net (o.h sqrt (some t)) s (some t) cut).1.d)
+             (o.sess.order.map (runForwardH o.sess.net (o.h sqrt (some t)) s (some t) cut).1.vis) ∧
+    (execObj sqrt o (.call (.route s (some t) cut ud))).1.sess.udict =
+      (if ud then record o.sess.udict s (runForwardH o.sess.net (o.h sqrt (some t)) s (some t) cut).2 else o.sess.udict) := by
+  have hcs : (o.sess.order.contains s && o.sess.order.contains t) = true := by
+    simp only [Bool.and_eq_true, contains_iff]; exact ⟨hs, ht⟩
+  have hst : routeOnH o.sess.net o.sess.order o.sess.flags (o.h sqrt (some t)) s (some t) cut =
+      runForwardH o.sess.net (o.h sqrt (some t)) s (some t) cut := by
+    unfold routeOnH runForwardH
+    rw [start_clean o.sess.order o.sess.flags s hok.clean]
+  refine ⟨?_, ?_, ?_, ?_⟩ <;> simp only [execObj, hm, if_true, hcs, hst] <;> rfl
+
 /-- every call of the routing-method API keeps the session invariant of its object -/
 theorem execObj_ok (sqrt : W → W) (o : NetObj W) (hok : SessOK o.sess) (op : WOp W) :
     SessOK (execObj sqrt o op).1.sess := by
